@@ -122,9 +122,13 @@ func (m *monitor) Send3(id uuid.UUID, update database.Update) {
 	}
 }
 
+// filterColumns projects row on columns; a nil set stands for all columns.
 func filterColumns(row *ovsdb.Row, columns map[string]bool) *ovsdb.Row {
 	if row == nil {
 		return nil
+	}
+	if columns == nil {
+		return row
 	}
 	new := make(ovsdb.Row, len(*row))
 	for k, v := range *row {
@@ -133,6 +137,21 @@ func filterColumns(row *ovsdb.Row, columns map[string]bool) *ovsdb.Row {
 		}
 	}
 	return &new
+}
+
+// columnSet returns the set of columns notifications are projected on: _uuid
+// and the requested columns, or nil (all columns, RFC 7047 4.1.5) when the
+// request does not list any.
+func columnSet(columns []string) map[string]bool {
+	if columns == nil {
+		return nil
+	}
+	cols := make(map[string]bool, len(columns)+1)
+	cols["_uuid"] = true
+	for _, c := range columns {
+		cols[c] = true
+	}
+	return cols
 }
 
 // requestFor returns the columns and select of the monitor request for a
@@ -160,12 +179,8 @@ func (m *monitor) filter(update database.Update) ovsdb.TableUpdates {
 			continue
 		}
 		tu := ovsdb.TableUpdate{}
-		cols := make(map[string]bool)
-		cols["_uuid"] = true
 		columns, sel := m.requestFor(table)
-		for _, c := range columns {
-			cols[c] = true
-		}
+		cols := columnSet(columns)
 		_ = update.ForEachRowUpdate(table, func(uuid string, ru2 ovsdb.RowUpdate2) error {
 			ru := &ovsdb.RowUpdate{}
 			ru.FromRowUpdate2(ru2)
@@ -175,9 +190,6 @@ func (m *monitor) filter(update database.Update) ovsdb.TableUpdates {
 			case ru.Modify() && sel.Modify():
 				fallthrough
 			case ru.Delete() && sel.Delete():
-				if len(cols) == 0 {
-					return nil
-				}
 				ru.New = filterColumns(ru.New, cols)
 				ru.Old = filterColumns(ru.Old, cols)
 				tu[uuid] = ru
@@ -200,12 +212,8 @@ func (m *monitor) filter2(update database.Update) ovsdb.TableUpdates2 {
 			continue
 		}
 		tu2 := ovsdb.TableUpdate2{}
-		cols := make(map[string]bool)
-		cols["_uuid"] = true
 		columns, sel := m.requestFor(table)
-		for _, c := range columns {
-			cols[c] = true
-		}
+		cols := columnSet(columns)
 		_ = update.ForEachRowUpdate(table, func(uuid string, ru2 ovsdb.RowUpdate2) error {
 			switch {
 			case ru2.Insert != nil && sel.Insert():
@@ -213,9 +221,6 @@ func (m *monitor) filter2(update database.Update) ovsdb.TableUpdates2 {
 			case ru2.Modify != nil && sel.Modify():
 				fallthrough
 			case ru2.Delete != nil && sel.Delete():
-				if len(cols) == 0 {
-					return nil
-				}
 				ru2.Insert = filterColumns(ru2.Insert, cols)
 				ru2.Modify = filterColumns(ru2.Modify, cols)
 				ru2.Delete = filterColumns(ru2.Delete, cols)
